@@ -323,6 +323,21 @@ def check_duplicates(run, f, rule='R7'):
             if ast.dump(x.left) == ast.dump(x.comparators[0]):
                 found = True
                 run.violation(rule, f.key, 'self comparison ' + src(x, 80), 'comparison of an expression with itself', f=f, node=x)
+        elif isinstance(x, ast.Call) and isinstance(x.func, ast.Name) and x.func.id in ('isinstance', 'issubclass') and len(x.args) == 2 and \
+                isinstance(x.args[1], ast.Name) and x.args[1].id in f.allparams and x.args[1].id not in ('cls', 'klass', 'type_', 'types') and \
+                x.func.id == 'isinstance':
+            # isinstance(<a type>, <a value>): the arguments are exchanged -- TypeError as soon as the test is reached
+            n += 1
+            a0 = x.args[0]
+            fi_ = FuncInfo.of(f)
+            t0 = fi_.resolve(a0) if isinstance(a0, (ast.Name, ast.Attribute)) else None
+            is_type = t0 is not None and (t0.kind in ('class', 'selfclass') or (t0.kind == 'external' and str(t0.obj).split('.')[-1] in
+                                          ('ndarray', 'integer', 'floating', 'number', 'generic', 'Expr', 'Symbol', 'Matrix')) or
+                                          (t0.kind == 'builtin' and str(t0.obj) in ('int', 'float', 'list', 'tuple', 'str', 'dict', 'set', 'bool', 'complex')))
+            if is_type and not (isinstance(a0, ast.Name) and a0.id in f.allparams):
+                found = True
+                run.violation(rule, f.key, 'exchanged arguments ' + src(x, 60), 'isinstance is given the type %s as the object and the parameter %r as the type: '
+                              'the test raises TypeError (arg 2 must be a type) whenever it is reached' % (src(a0, 30), x.args[1].id), f=f, node=x)
         elif isinstance(x, ast.Call) and len(x.args) == 2 and not x.keywords and not isinstance(x.args[0], ast.Constant):
             nm = x.func.attr if isinstance(x.func, ast.Attribute) else (x.func.id if isinstance(x.func, ast.Name) else '')
             if nm in ('atan2', 'arctan2', 'cross', 'subtract', 'isclose', 'allclose', 'array_equal'):
